@@ -1,5 +1,6 @@
 import Firebolt.Properties.C01
 import Firebolt.Properties.ExecFlow
+import Firebolt.Properties.ExecNet
 /-!
 # C16 — Per-node metrics account for every event exactly once
 Denotational part; the counter invariant under every interleaving is in `Properties/Exec*.lean`.
@@ -56,5 +57,19 @@ open Firebolt.Exec in
 theorem discarded_counter_any_schedule (c : Cfg) (caps : Nat → Nat) (disc : Nat → Bool) (as : List Act) (s : St)
     (hr : run c (init c caps disc) as = some s) (k : Nat) : s.discarded k = (s.dropped k).length :=
   (reachable_all c caps disc as s hr).chan.counted k
+
+
+open Firebolt.Exec in
+/-- **C16 for every node of the tree, every global schedule**: at quiescence received = events handed over =
+processed + filtered + failed, each counting exactly the events with that outcome -/
+theorem tree_counters_any_global_schedule (cfg : Path → Cfg) (caps : Path → Nat) (disc : Path → Bool) (sched : List (Path × Act)) (N : Net)
+    (hr : grun (ginit cfg caps disc) sched = some N) (p : Path) (ht : Terminal (cfg p) (N.st p)) :
+    (N.st p).received = (N.st p).recvd.length ∧ (N.st p).received = (N.st p).processed + (N.st p).filtered + (N.st p).failed ∧
+    (N.st p).processed = ((N.st p).recvd.filter (passB (cfg p))).length ∧
+    (N.st p).filtered = ((N.st p).recvd.filter (filterB (cfg p))).length ∧
+    (N.st p).failed = ((N.st p).recvd.filter (errorB (cfg p))).length := by
+  obtain ⟨hG, hcfg, _⟩ := reachable_ginv cfg caps disc sched N hr
+  subst hcfg
+  exact tree_counters N hG p ht
 
 end Firebolt.C16
